@@ -1,1 +1,166 @@
-// placeholder
+//! C07 — a multi-proof built from honest, ordered path proofs against one root (a) verifies
+//! against that root, (b) answers every value / non-existence query exactly as the individual
+//! verified path proofs do, (c) verifies updates to the same new root as the per-path update
+//! verifier and as the specification's from-scratch root of the updated set.
+
+use crate::c06::{batch, ops_under};
+use crate::shape::*;
+use crate::symhash::*;
+use bitvec::prelude::*;
+use nomt_core::proof::{
+    verify_multi_proof, verify_multi_proof_update, verify_update, MultiProof, PathProof, PathUpdate,
+    VerifiedPathProof,
+};
+use nomt_core::trie::{KeyPath, LeafData, Node, ValueHash};
+
+/// (a) + (b); `which[i]` = aggregate the i-th terminal (left to right)
+pub fn multi_queries<U: Tree>(window: usize, mask: &[bool], which: &[bool]) {
+    let mask = mk(mask);
+    let p = pairs::<U>(window);
+    let root = U::root::<SymHasher>(&p.keys, &p.vals, &mask);
+    let mut proofs: Vec<PathProof> = Vec::with_capacity(MAXD);
+    let mut singles: Vec<VerifiedPathProof> = Vec::with_capacity(MAXD);
+    let mut n_terms = 0;
+    let mut w = Walk::new();
+    U::walk::<SymHasher, _>(&p.keys, &p.vals, &mask, &mut w, &mut |t: &Term| {
+        n_terms += 1;
+        if !which[t.index] {
+            return;
+        }
+        let proof = proof_of(t, &p.keys, &p.vals);
+        let lk = lookup_key(t, &p.keys);
+        let v = proof.verify::<SymHasher>(lk.view_bits::<Msb0>(), root);
+        assert!(v.is_ok());
+        singles.push(v.unwrap());
+        proofs.push(proof);
+    });
+    let n_agg = proofs.len();
+    let mp = MultiProof::from_path_proofs(proofs);
+    let res = verify_multi_proof::<SymHasher>(&mp, root);
+    assert!(res.is_ok(), "multi-proof of honest path proofs rejected");
+    let v = res.unwrap();
+
+    let q = window_key(window);
+    let claimed: ValueHash = kani::any();
+    let ql = LeafData {
+        key_path: q,
+        value_hash: claimed,
+    };
+    // what the individual proofs say
+    let mut want_val: Option<bool> = None;
+    let mut want_non: Option<bool> = None;
+    let mut want_idx: Option<usize> = None;
+    let mut i = 0;
+    while i < singles.len() {
+        if let Ok(x) = singles[i].confirm_value(&ql) {
+            want_val = Some(x);
+            want_idx = Some(i);
+        }
+        if let Ok(x) = singles[i].confirm_nonexistence(&q) {
+            want_non = Some(x);
+        }
+        i += 1;
+    }
+    let got_val = v.confirm_value(&ql).ok();
+    let got_non = v.confirm_nonexistence(&q).ok();
+    let got_idx = v.find_index_for(&q).ok();
+    assert!(got_val == want_val, "confirm_value differs from the individual proofs");
+    assert!(got_non == want_non, "confirm_nonexistence differs from the individual proofs");
+    assert!(got_idx == want_idx, "find_index_for differs from the individual proofs");
+    if let Some(ix) = got_idx {
+        assert!(v.confirm_value_with_index(&ql, ix).ok() == want_val);
+        assert!(v.confirm_nonexistence_with_index(&q, ix).ok() == want_non);
+    }
+    kani::cover!(want_non == Some(true), "absent key confirmed");
+    if n_agg < n_terms {
+        kani::cover!(want_val.is_none(), "out-of-scope key");
+    }
+    core::mem::forget(v);
+    core::mem::forget(mp);
+    core::mem::forget(singles);
+}
+
+/// (c) — `extra`: also aggregate the terminals that receive no op.
+pub fn multi_update<U: Tree>(window: usize, before: &[bool], after: &[bool], touch: &[bool], extra: bool) {
+    let b = batch::<U>(window, before, after, touch);
+    let prev_root = U::root::<SymHasher>(&b.p.keys, &b.p.vals, &b.before);
+    let want = U::root::<SymHasher>(&b.p.keys, &b.vals_after, &b.after);
+    let mut proofs: Vec<PathProof> = Vec::with_capacity(MAXD);
+    let mut updates: Vec<PathUpdate> = Vec::with_capacity(MAXD);
+    let mut all_ops: Vec<(KeyPath, Option<ValueHash>)> = Vec::with_capacity(MAXK);
+    let mut w = Walk::new();
+    U::walk::<SymHasher, _>(&b.p.keys, &b.p.vals, &b.before, &mut w, &mut |t: &Term| {
+        let ops = ops_under(&b, t);
+        if ops.is_empty() && !extra {
+            core::mem::forget(ops);
+            return;
+        }
+        let proof = proof_of(t, &b.p.keys, &b.p.vals);
+        if !ops.is_empty() {
+            let mut j = 0;
+            while j < ops.len() {
+                all_ops.push(ops[j]);
+                j += 1;
+            }
+            let lk = lookup_key(t, &b.p.keys);
+            let v = proof.verify::<SymHasher>(lk.view_bits::<Msb0>(), prev_root);
+            assert!(v.is_ok());
+            updates.push(PathUpdate { inner: v.unwrap(), ops });
+        } else {
+            core::mem::forget(ops);
+        }
+        proofs.push(proof);
+    });
+    let mp = MultiProof::from_path_proofs(proofs);
+    let res = verify_multi_proof::<SymHasher>(&mp, prev_root);
+    assert!(res.is_ok(), "multi-proof of honest path proofs rejected");
+    let v = res.unwrap();
+    let got_multi = verify_multi_proof_update::<SymHasher>(&v, all_ops);
+    let got_paths = verify_update::<SymHasher>(prev_root, &updates);
+    assert!(matches!(got_paths, Ok(r) if r == want), "per-path update root differs from rebuilt root");
+    assert!(matches!(got_multi, Ok(r) if r == want), "multi-proof update root differs from rebuilt root");
+    kani::cover!(got_multi.is_ok(), "update verified");
+    core::mem::forget(v);
+    core::mem::forget(mp);
+    core::mem::forget(updates);
+}
+
+macro_rules! mq {
+    ($name:ident, $u:ty, $w:expr, $mask:expr, $which:expr) => {
+        #[kani::proof]
+        pub fn $name() {
+            multi_queries::<$u>($w, &$mask, &$which)
+        }
+    };
+}
+macro_rules! mu {
+    ($name:ident, $u:ty, $w:expr, $before:expr, $after:expr, $touch:expr, $extra:expr) => {
+        #[kani::proof]
+        pub fn $name() {
+            multi_update::<$u>($w, &$before, &$after, &$touch, $extra)
+        }
+    };
+}
+
+const T_: bool = true;
+const F_: bool = false;
+
+mq!(c07_mq_e, S0, 4, [], [T_]);
+mq!(c07_mq_s1, S1, 4, [T_], [T_]);
+mq!(c07_mq_s2d0_both, S2D0, 4, [T_, T_], [T_, T_]);
+mq!(c07_mq_s2d0_left, S2D0, 4, [T_, T_], [T_, F_]);
+mq!(c07_mq_s2d1_all, S2D1L, 4, [T_, T_], [T_, T_, T_]);
+mq!(c07_mq_s2d1_leaves, S2D1L, 4, [T_, T_], [T_, T_, F_]);
+mq!(c07_mq_s2d1_leaf_term, S2D1L, 4, [T_, T_], [T_, F_, T_]);
+mq!(c07_mq_s3a_all, S3A, 4, [T_, T_, T_], [T_, T_, T_]);
+mq!(c07_mq_s3c_outer, S3C, 4, [T_, T_, T_], [T_, F_, F_, T_]);
+mq!(c07_mq_s4a_all, S4A, 4, [T_, T_, T_, T_], [T_, T_, T_, T_]);
+
+mu!(c07_mu_s1_insert, S1, 4, [F_], [T_], [T_], false);
+mu!(c07_mu_s1_overwrite, S1, 4, [T_], [T_], [T_], false);
+mu!(c07_mu_s2d0_split, S2D0, 4, [T_, F_], [T_, T_], [F_, T_], false);
+mu!(c07_mu_s2d0_split_x, S2D0, 4, [T_, F_], [T_, T_], [F_, T_], true);
+mu!(c07_mu_s2d1_collapse, S2D1L, 4, [T_, T_], [F_, T_], [T_, F_], true);
+mu!(c07_mu_s2d0_both, S2D0, 4, [T_, T_], [T_, T_], [T_, T_], false);
+mu!(c07_mu_s3a_delete_left, S3A, 4, [T_, T_, T_], [F_, T_, T_], [T_, F_, F_], true);
+mu!(c07_mu_s3b_collapse_left, S3B, 4, [T_, T_, T_], [F_, F_, T_], [T_, T_, F_], true);
